@@ -3,8 +3,8 @@ from .. import rules_part as R
 
 
 def run(ck, progs):
-    ck.not_decided = ("that no thread of a rank is left without LPs when the rank hosts at least as many LPs as threads, and overflow of the "
-                      "routing products for LP identifiers near 2^64 (numeric facts over all (LPs, ranks, threads) triples)")
+    ck.not_decided = ("overflow of the routing arithmetic for identifier counts near 2^64, and configurations beyond the interpreted ones "
+                      "(12 LPs, 4 ranks, 4 threads)")
     ck.rule("C14.1", "the routing macros lid_to_nid / lid_to_rid are non-decreasing in the LP id at every expansion site (syntactic monotonicity "
                      "calculus; divisors are positive counts, lps == 0 is rejected at init)")
     ck.rule("C14.2", "every ownership bound (lid_node_first, n_lps_node, lid_thread_first, lid_thread_end) is computed by partition_start with "
